@@ -55,6 +55,8 @@ type gScen struct {
 	loaderFail bool
 	scanFail   bool
 	rankSeed   uint64 // seed of the imposed enumeration orders
+	prefill    []int  // rows whose specified slots are pre-filled (before Run) with unregistered dummy objects: the container
+	                  // replaces what it injects and leaves alone what it does not
 	zs         int    // number of registered ZERO-SIZE components (types Z0..Z2, all implementing Ifc0): Go gives every
 	                  // pointer to a zero-size value the same address, so identity-by-address conflates them
 	natural    bool   // do not impose any order (Go's own sync.Map order)
@@ -114,7 +116,7 @@ type gRun struct {
 
 // rowNames: universe nodes first (scenario order), then every other registered component sorted by name.
 func runGraph(sc *gScen) *gRun {
-	env := &runEnv{clones: map[string]map[int]node{}, byPtr: map[any]string{}, closed: map[string]int{}}
+	env := &runEnv{clones: map[string]map[int]node{}, byPtr: map[any]string{}, closed: map[string]int{}, dummies: map[any]bool{}}
 	res := &gRun{sc: sc, rowOf: map[string]int{}, fields: map[string][]string{}, pubs: map[int]string{}, slotInfo: map[string][3]string{}}
 	var comps []any
 	for i, gn := range sc.nodes {
@@ -125,6 +127,11 @@ func runGraph(sc *gScen) *gRun {
 		b.Fetch = gn.fetch
 		b.env = env
 		b.V = "SENTINEL"
+		for _, pr := range sc.prefill {
+			if pr == i {
+				prefillSlots(b, gn.slots, env)
+			}
+		}
 		if gn.cfg > 0 {
 			t := cfgTags[gn.cfg]
 			b.cfgSpec = &t
@@ -474,7 +481,57 @@ func kindOf(t reflect.Type, tyOf func(reflect.Type) int) (string, string) {
 	return "o", "0"
 }
 
+// prefillSlots puts an unregistered dummy of a fitting type into every specified slot of a holder before the start
+func prefillSlots(b *Base, slots map[string]string, env *runEnv) {
+	mk := func() *T1 { d := &T1{}; d.Idx = -1; env.dummies[any(d)] = true; return d }
+	for slot := range slots {
+		switch slot {
+		case "P0":
+			d := &T0{}
+			d.Idx = -1
+			env.dummies[any(d)] = true
+			b.P0 = d
+		case "P1":
+			b.P1 = mk()
+		case "P4":
+			d := &T4{}
+			d.Idx = -1
+			env.dummies[any(d)] = true
+			b.P4 = d
+		case "X0":
+			b.X0 = mk()
+		case "X0b":
+			b.X0b = mk()
+		case "X1":
+			b.X1 = mk()
+		case "S0":
+			b.S0 = []Ifc0{mk()}
+		case "S1":
+			b.S1 = []Ifc1{mk()}
+		case "SP0":
+			d := &T0{}
+			d.Idx = -1
+			env.dummies[any(d)] = true
+			b.SP0 = []*T0{d}
+		case "A0":
+			b.A0 = mk()
+		case "A1":
+			b.A1 = mk()
+		case "AS0":
+			b.AS0 = []any{mk()}
+		}
+	}
+}
+
+// readSlot: what a field holds, as row#version tokens. A field that still holds exactly its pre-filled dummy (and nothing
+// else) was left untouched and reads as empty; a dummy next to injected components is reported as an unknown object.
 func readSlot(v reflect.Value, env *runEnv) []string {
+	isDummy := func(x reflect.Value) bool {
+		if !x.IsValid() || ((x.Kind() == reflect.Pointer || x.Kind() == reflect.Interface) && x.IsNil()) {
+			return false
+		}
+		return env.dummies[x.Interface()]
+	}
 	key := func(x reflect.Value) string {
 		if !x.IsValid() || ((x.Kind() == reflect.Pointer || x.Kind() == reflect.Interface) && x.IsNil()) {
 			return "nil"
@@ -487,10 +544,22 @@ func readSlot(v reflect.Value, env *runEnv) []string {
 	var out []string
 	switch v.Kind() {
 	case reflect.Slice:
+		onlyDummies := v.Len() > 0
+		for i := 0; i < v.Len(); i++ {
+			if !isDummy(v.Index(i)) {
+				onlyDummies = false
+			}
+		}
+		if onlyDummies {
+			return nil
+		}
 		for i := 0; i < v.Len(); i++ {
 			out = append(out, key(v.Index(i)))
 		}
 	default:
+		if isDummy(v) {
+			return nil
+		}
 		if k := key(v); k != "nil" {
 			out = append(out, k)
 		}
@@ -509,7 +578,7 @@ func (r *gRun) scenarioLine() string {
 		return 0
 	}
 	var recs []string
-	recs = append(recs, "G", fmt.Sprintf("X %d %d %d %d", b2i(sc.loaderFail), b2i(sc.scanFail), sc.rankSeed, sc.zs))
+	recs = append(recs, "G", fmt.Sprintf("X %d %d %d %d %s", b2i(sc.loaderFail), b2i(sc.scanFail), sc.rankSeed, sc.zs, joinInts(sc.prefill)))
 	recs = append(recs, "K "+joinInts(r.order))
 	recs = append(recs, "B "+joinInts(r.boot))
 	for i, row := range r.rows {
@@ -651,6 +720,35 @@ func (r *gRun) oracles() []string {
 	// the same name must never start inside the first one
 	for _, n := range r.nested {
 		add("c04-nested-creation", "a creation of %q was started while a creation of the same name was still running", n)
+	}
+	// C05 "dependencies first": a holder's Init runs only after every dependency that does not depend back on it completed
+	// its own. Evaluated for the clear-cut case: a REQUIRED by-name point whose target is a leaf (no injection points at all,
+	// hence cannot depend back), both ordinary components.
+	if r.status == "ok" {
+		pos := map[string]int{}
+		for i, e := range r.events {
+			if _, seen := pos[e]; !seen {
+				pos[e] = i
+			}
+		}
+		for i, n := range r.sc.nodes {
+			pi, inited := pos[fmt.Sprintf("i%d", i)]
+			if !inited || utInfos[n.ty].pp || unwiredNode(r, i) {
+				continue
+			}
+			for slot, tag := range n.slots {
+				if slot != "A0" && slot != "A1" && slot != "A2" || tag[0] != 'w' || strings.Contains(tag, ",") || len(tag) < 2 {
+					continue
+				}
+				t, ok := r.rowOf[tag[1:]]
+				if !ok || t == i || t >= len(r.sc.nodes) || len(r.sc.nodes[t].slots) != 0 || utInfos[r.sc.nodes[t].ty].pp || r.sc.nodes[t].fetch != "" {
+					continue
+				}
+				if pt, ok := pos[fmt.Sprintf("i%d", t)]; !ok || pt > pi {
+					add("c05-dep-first", "Init of node %d ran although its required dependency node %d (a leaf) had not completed Init", i, t)
+				}
+			}
+		}
 	}
 	// zero-size components are created eagerly like every other component: after a successful start each of their
 	// lifecycle callbacks (and Run, for the runners among them) ran exactly once — identity by address must not conflate them
@@ -903,6 +1001,10 @@ func (r *gRun) otherCompatible(i int, slot string) bool {
 	return slot == "AS0" && r.sc.zs > 0
 }
 
+func unwiredNode(r *gRun, i int) bool {
+	return i < len(r.nodesObj) && isUnwired(r.nodesObj[i])
+}
+
 func joinFails(f []string) string {
 	if len(f) == 0 {
 		return "ok"
@@ -931,6 +1033,13 @@ func parseGraphScenario(line string) (*gScen, error) {
 			sc.rankSeed, _ = strconv.ParseUint(f[3], 10, 64)
 			if len(f) > 4 {
 				sc.zs, _ = strconv.Atoi(f[4])
+			}
+			if len(f) > 5 && f[5] != "-" {
+				for _, t := range strings.Split(f[5], ",") {
+					if v, err := strconv.Atoi(t); err == nil {
+						sc.prefill = append(sc.prefill, v)
+					}
+				}
 			}
 		case "N":
 			if len(f) < 12 {
@@ -977,7 +1086,8 @@ func graphReplay(scn string, w *hx.Writer) {
 }
 
 func cloneScen(sc *gScen) *gScen {
-	c := &gScen{loaderFail: sc.loaderFail, scanFail: sc.scanFail, rankSeed: sc.rankSeed, natural: sc.natural, zs: sc.zs}
+	c := &gScen{loaderFail: sc.loaderFail, scanFail: sc.scanFail, rankSeed: sc.rankSeed, natural: sc.natural, zs: sc.zs,
+		prefill: append([]int{}, sc.prefill...)}
 	for _, n := range sc.nodes {
 		m := n
 		m.slots = map[string]string{}
